@@ -353,7 +353,8 @@ class TokenParser(Parser):
             # if the 2nd group (capturing comments) is not None,
             # it means we have captured a non-quoted (real) comment string.
             if comment := match.group(2):
-                return "\n" * comment.count("\n")  # so we will return empty to remove the comment
+                # A comment separates the tokens around it like whitespace does, keep its line breaks
+                return "\n" * comment.count("\n") or (" " if comment.startswith("/*") else "")
             # otherwise, we will return the 1st group
             return match.group(1)  # captured quoted-string
 
